@@ -3,6 +3,7 @@ package c10
 
 import (
 	"context"
+	stderrors "errors"
 	"fmt"
 	"strings"
 	"sync"
@@ -440,6 +441,10 @@ func TestLifecycleMachine(t *testing.T) {
 		for i := 0; i < 3; i++ {
 			m.pubs = append(m.pubs, lib.NewScriptPub(""))
 		}
+		if rapid.Bool().Draw(t, "onePublisherFailsToClose") {
+			// a publisher whose Close reports an error (a failed final flush): the handler has ended all the same
+			m.pubs[2].CloseErr = stderrors.New("final flush failed")
+		}
 		ctl := lib.Install()
 		defer ctl.Uninstall()
 		ctl.Noise(rapid.SliceOfN(rapid.Uint8Range(0, 5), 0, 8).Draw(t, "noise"))
@@ -762,16 +767,15 @@ func TestCloseDuringStartup(t *testing.T) {
 	})
 }
 
-
 // ---------- forced: the Run context ends, or Run is called again, while the router is still starting ----------
 
 func TestStartupInterference(t *testing.T) {
 	rapid.Check(t, func(t *rapid.T) {
 		n := rapid.IntRange(1, 4).Draw(t, "handlers")
 		skip := rapid.IntRange(0, n-1).Draw(t, "afterStarts")
-		action := rapid.SampledFrom([]string{"cancel-before-run", "cancel-during-startup", "second-run-during-startup", "close-before-run"}).Draw(t, "action")
+		action := rapid.SampledFrom([]string{"cancel-before-run", "cancel-during-startup", "second-run-during-startup", "close-before-run", "subscribe-fails"}).Draw(t, "action")
 		closeTimeout := 5 * time.Second
-		if action == "close-before-run" {
+		if action == "close-before-run" || action == "subscribe-fails" {
 			closeTimeout = 50 * time.Millisecond // Close of a never-run router with handlers runs into its timeout on the unchanged tree
 		}
 		router, err := message.NewRouter(message.RouterConfig{CloseTimeout: closeTimeout}, watermill.NopLogger{})
@@ -785,6 +789,38 @@ func TestStartupInterference(t *testing.T) {
 			ss := lib.NewScriptSub("")
 			allSubs = append(allSubs, ss)
 			router.AddNoPublisherHandler(fmt.Sprintf("h%d", i), "t", ss, func(*message.Message) error { return nil })
+		}
+		if action == "subscribe-fails" {
+			// one handler's Subscribe fails: whatever Run does about it, Running() must not claim that every handler
+			// holds its subscription
+			failing := skip % n
+			allSubs[failing].SubscribeErr = func(int, string) error { return stderrors.New("topic unavailable") }
+			rctx, rcancel := context.WithCancel(context.Background())
+			defer rcancel()
+			ret := make(chan error, 1)
+			go func() { ret <- router.Run(rctx) }()
+			select {
+			case <-ret:
+			case <-time.After(50 * time.Millisecond):
+			}
+			select {
+			case <-router.Running():
+				for k, ss := range allSubs {
+					if len(ss.Subs()) == 0 {
+						t.Fatalf("violation: Running() is closed although handler #%d of %d has no subscription (its Subscribe failed)", k, n)
+					}
+				}
+			default:
+			}
+			rcancel()
+			done := make(chan struct{})
+			go func() { router.Close(); close(done) }()
+			select {
+			case <-done:
+			case <-time.After(5*time.Second + lib.Live):
+			}
+			lib.Case(fmt.Sprintf("startup|%s|%d|%d", action, n, failing), true, "startup-interference", action)
+			return
 		}
 		if action == "close-before-run" {
 			// a router that is closed before it was run: Running() must not claim that the handlers are subscribed
